@@ -797,6 +797,37 @@ class Machine(object):
                 entropy.reset_stream(0)
             seqs.append((seq, t.pos))
         ctx.obs(what, seqs[0][1])
+        if what == "primes":
+            # "a random prime of exactly N bits": given uniform candidates, handing out a candidate if and only if it is
+            # prime is what makes every N-bit prime equally likely; a prime that is not one of the drawn candidates (an
+            # incremental search from the last draw) is weighted by the gap below it and may leave the N-bit range.
+            # Second tape: the first candidate is 2^N - 1 (above the largest N-bit prime).
+            from Crypto.Math._IntegerBase import IntegerBase
+            orig = IntegerBase.__dict__["random"]
+            for prefix in (b"", b"\xff" * ((bits + 7) // 8)):
+                drawn = []
+
+                def spy(cls, **kw):
+                    r = orig.__func__(cls, **kw)
+                    if kw.get("exact_bits") == bits:
+                        drawn.append(int(r))
+                    return r
+                IntegerBase.random = classmethod(spy)
+                try:
+                    pr = int(generate_probable_prime(exact_bits=bits, randfunc=Tape(prefix + tape)))
+                finally:
+                    IntegerBase.random = orig
+                ctx.fault("rng.ff_first_candidate" if prefix else "rng.seeded")
+                if pr.bit_length() != bits:
+                    ctx.violate("entropy/generate_probable_prime/size", "generate_probable_prime(exact_bits=%d) returned a prime of %d bits%s" % (
+                        bits, pr.bit_length(), " (first candidate on the tape: 2^%d - 1)" % bits if prefix else ""), observed=pr.bit_length(), expected=bits)
+                if drawn:
+                    ctx.probe("prime_candidates_spied")
+                    if pr != (drawn[-1] | 1):
+                        ctx.violate("entropy/generate_probable_prime/prime-is-not-a-drawn-candidate",
+                                    "the prime handed out is not the last candidate drawn from the random source (|1): primes are not "
+                                    "equally likely given uniform candidates (distance from the last candidate: %d)" % (pr - (drawn[-1] | 1)),
+                                    observed=pr, expected=drawn[-1] | 1)
         if not (seqs[0] == seqs[1] == seqs[2]):
             ctx.violate("entropy/replay/%s/not-a-function-of-the-tape" % what,
                         "the same randfunc tape replayed three times in one process gave different value sequences or consumed "
